@@ -8,11 +8,17 @@ Open Scope string_scope.
 
 (* ---- tie to the source: no value a cold pipeline is built from carries a shared mutable cell.
    The table (every struct of /repo/src that implements Observable, with its field types) is
-   regenerated on every run.  The listed exceptions are hot by design: subjects, share /
-   publish, and the status handle of complete_status. ---- *)
+   regenerated on every run; a field counts as shared when its type mentions Rc / Arc / RefCell /
+   Cell / Mutex / an atomic, or one of the crate's own types or aliases that (transitively) does:
+   MutRc, MutArc, MultiSubscription, TaskHandle, Subscriber, the subjects, ...  The listed
+   exceptions are hot by design: the subjects, share / publish, the status handle of
+   complete_status, and the two sources of the test-only fake clock (they hold the clock). ---- *)
 Definition hot_by_design : list string :=
   ["ops/complete_status.rs:StatusOp"; "ops/ref_count.rs:ShareOp"; "ops/ref_count.rs:ShareOpThreads";
-   "subject/behavior_subject.rs:BehaviorSubject"].
+   "subject/behavior_subject.rs:BehaviorSubject";
+   "subject.rs:Subject"; "subject.rs:SubjectThreads"; "subject.rs:MutRefItemSubject"; "subject.rs:MutRefErrSubject";
+   "subject.rs:MutRefItemErrSubject";
+   "observable/fake_timer.rs:DelayObservable"; "observable/fake_timer.rs:IntervalObservable"].
 
 Definition cold_value_ok (row : string * bool) : bool :=
   negb (snd row) || existsb (String.eqb (fst row)) hot_by_design.
